@@ -178,7 +178,9 @@ theorem tbGeodesic_head (A : Arith D) (Am : Ambient S D) (O : AtlasOracle σ S U
     · cases h
     · split at h
       · simp only [Option.some.injEq] at h; subst h; rfl
-      · simp only [Option.some.injEq] at h; subst h; rfl
+      · split at h
+        · simp only [Option.some.injEq] at h; subst h; rfl
+        · simp only [Option.some.injEq] at h; subst h; rfl
 
 theorem tbGeodesic_ok_some (A : Arith D) (Am : Ambient S D) (O : AtlasOracle σ S U C D) (P : AtlasParams D)
     (isFin : D → Bool) (fuel : Nat) (s : σ) (frm to : S) (i : Bool)
@@ -194,7 +196,73 @@ theorem tbGeodesic_ok_some (A : Arith D) (Am : Ambient S D) (O : AtlasOracle σ 
     · rename_i h2; simp [h2] at h
     · split
       · exact ⟨_, rfl⟩
-      · exact ⟨_, rfl⟩
+      · split
+        · exact ⟨_, rfl⟩
+        · exact ⟨_, rfl⟩
+
+/-! ### the repaired TangentBundle traversal validates what it stores -/
+
+section tbvalid
+variable (A : Arith D) (Am : Ambient S D) (O : AtlasOracle σ S U C D) (P : AtlasParams D)
+  (isFin : D → Bool) (interpolate : Bool) (frm to : S) (distMax : D)
+
+theorem tbStep_accept_valid (s : σ) (c : C) (uj ub : U) (scratch : S) (dist : D) (created : Nat)
+    (x : S) (s' : σ) (c' : C) (uj' ub' : U) (dist' : D) (created' : Nat) (done : Bool)
+    (h : tbStep A Am O P isFin interpolate frm to distMax s c uj ub scratch dist created =
+      .accept x s' c' uj' ub' dist' created' done) :
+    interpolate = false → AValid O x := by
+  unfold tbStep at h
+  dsimp only at h
+  split at h
+  · cases h
+  · split at h
+    · cases h
+    · split at h
+      · cases h
+      · split at h
+        · cases h
+        · split at h
+          · cases h
+          · split at h
+            · cases h
+            · split at h
+              · cases h
+              · rename_i hv
+                split at h
+                · split at h
+                  · cases h
+                  · simp only [TStep.accept.injEq] at h
+                    obtain ⟨hx, _⟩ := h
+                    subst hx
+                    exact validOrSkip_true O interpolate _ _ hv
+                · simp only [TStep.accept.injEq] at h
+                  obtain ⟨hx, _⟩ := h
+                  subst hx
+                  exact validOrSkip_true O interpolate _ _ hv
+
+theorem tbLoop_valid : ∀ (k : Nat) (s : σ) (c : C) (uj ub : U) (scratch : S) (dist : D) (created : Nat),
+    ∀ x ∈ (tbLoop A Am O P isFin interpolate frm to distMax k s c uj ub scratch dist created).states,
+      interpolate = false → AValid O x
+  | 0, s, c, uj, ub, scratch, dist, created => by simp [tbLoop]
+  | k + 1, s, c, uj, ub, scratch, dist, created => by
+    simp only [tbLoop]
+    cases hst : tbStep A Am O P isFin interpolate frm to distMax s c uj ub scratch dist created with
+    | stop why s' scratch' => simp
+    | accept x s' c' uj' ub' dist' created' done =>
+      have hv := tbStep_accept_valid A Am O P isFin interpolate frm to distMax s c uj ub scratch dist created
+        x s' c' uj' ub' dist' created' done hst
+      simp only
+      split
+      · intro y hy
+        simp only [List.mem_singleton] at hy
+        subst hy
+        exact hv
+      · intro y hy
+        rcases List.mem_cons.mp hy with rfl | hy
+        · exact hv
+        · exact tbLoop_valid k _ _ _ _ _ _ _ y hy
+
+end tbvalid
 
 /-! ### samplers -/
 
